@@ -262,7 +262,7 @@ impl World {
                 c.verif_visit_entries(|k, v, meta| {
                     res.push((
                         k.id,
-                        json!({"k": k.id, "v": v.id, "w": meta.weight,
+                        json!({"k": k.id, "v": v.id, "w": meta.weight, "tw": if self.cfg.weigher { v.w } else { 1 },
                            "la": ticks(base, meta.last_accessed), "lm": ticks(base, meta.last_modified),
                            "adm": meta.admitted, "dirty": false, "i": 0}),
                         meta.ao_node,
@@ -305,13 +305,13 @@ impl World {
             AnyCache::S(c) => {
                 let mut raw = Vec::new();
                 c.verif_visit_entries(|k, v, meta| {
-                    raw.push((k.id, v.id, meta));
+                    raw.push((k.id, v.id, if self.cfg.weigher { v.w } else { 1 }, meta));
                 });
-                for (k, v, meta) in raw {
+                for (k, v, tw, meta) in raw {
                     let i = self.info_idx(meta.info_id);
                     res.push((
                         k,
-                        json!({"k": k, "v": v, "w": meta.weight,
+                        json!({"k": k, "v": v, "w": meta.weight, "tw": tw,
                            "la": ticks(base, meta.last_accessed), "lm": ticks(base, meta.last_modified),
                            "adm": meta.admitted, "dirty": meta.dirty, "i": i}),
                         meta.ao_node,
